@@ -439,7 +439,7 @@ class PTable(EngineBase):
         pool = world["pool"]
         st = {"handles": [], "viol": [], "steps": 0, "boot_calls_after_step":
               0, "yielded": [], "iters": [], "open_gens": [], "keys": set(),
-              "flag_overlap": set(),
+              "flag_overlap": set(), "seen_obj": {}, "prop": prop,
               "probes": {}, "flagged": {}, "last_complete": None,
               "cleared": False, "all_yielded_ids": {}, "sample": [],
               "obj_inc": {}, "pre_clear": {}, "pid_hist": {}, "skipped": {}}
@@ -663,7 +663,24 @@ class PTable(EngineBase):
                 st["open_gens"].append(g)
                 return ("partial-open", got)
             if consume is None:
+                acc0_ = len(k.acclog)
                 got = list(g)
+                if st.get("prop") == "C02" and not any(
+                        e for e in k.stats if e.startswith("ev_in_")):
+                    # objects *created* by this pass become handles of their
+                    # own (the application keeps what process_iter() yields)
+                    for o in got:
+                        if id(o) in st["seen_obj"] or o.pid in (1, 1000):
+                            continue
+                        st["seen_obj"][id(o)] = o
+                        owners = {a[6] for a in k.acclog[acc0_:]
+                                  if a[5] == o.pid and a[8]}
+                        cur = k.procs.get(o.pid)
+                        if len(owners) == 1 and cur is not None and \
+                                cur.inc in owners and len(st["handles"]) < 40:
+                            st["handles"].append(Handle(
+                                o, o.pid, cur.inc, idx, st["steps"]))
+                            st["probe"]("handle_from_process_iter")
                 return ("complete", got)
             for _ in range(consume):
                 try:
